@@ -83,6 +83,10 @@ func call(o op) int {
 		return lib.WithTimeout(o.arg)
 	case 17:
 		return lib.AfterFuncOnce(o.arg)
+	case 18:
+		return lib.CondQueue(o.arg)
+	case 19:
+		return lib.SpinHandoff(o.arg)
 	// defective
 	case 20:
 		return lib.RacyCounter()
@@ -100,6 +104,8 @@ func call(o op) int {
 		return lib.FoundOrDone(o.arg)
 	case 27:
 		return lib.ExpiringSquare(o.arg)
+	case 28:
+		return lib.CondIfNotFor(o.arg)
 	}
 	panic("bad fn")
 }
@@ -138,6 +144,12 @@ func want(fn, arg int) int {
 		return arg * (arg + 1) / 2
 	case 17:
 		return arg * 2
+	case 18:
+		return arg * (arg + 1) / 2
+	case 19:
+		return arg * 3
+	case 28:
+		return 2 * arg
 	case 27:
 		return arg * arg
 	case 26:
@@ -204,7 +216,7 @@ func main() {
 			for j := 0; j < k; j++ {
 				var o op
 				if mode == "ok" {
-					o.fn = r.n(18)
+					o.fn = r.n(20)
 					o.arg = 1 + r.n(7)
 				} else {
 					o.fn = *name
